@@ -155,7 +155,7 @@ func TestC14a(t *testing.T) {
 		Rule: "value of profile.HavocConfig generated from its yaotl struct tags (every optional block present/absent, 0-4 repeated user/Http/Smb/External blocks, lists and maps of 0-5 entries, int64 boundary and random ints, strings built from identifier-like text, quotes, backslashes, $ % { } template markers, control characters incl. NUL, Unicode incl. astral and non-NFC sequences, whole-line texts) printed with generated spelling (per character raw / \\n \\r \\t \\\" \\\\ / \\xHH per UTF-8 byte, $${ %%{, <<ID and <<-ID heredocs, numbers and booleans as literals or strings, exponent/leading-zero forms, bare or quoted labels and map keys, = or : in maps, shuffled items, # // /* */ comments, blank lines, CRLF, BOM, one-line blocks), loaded with profile.NewProfile().SetProfile; oracle: no error and every string/int/bool/list/map/label/repeated block equals the generated value. Non-trivial: some string needs an escape, or a block type is repeated; distinct = (#top-level blocks, repeated?, spelling classes used out of hex/heredoc/flush heredoc/template escape/number-as-string/comments/shuffled)",
 		Gen:   genA, Check: checkA, Classify: classifyA,
 		Assumptions: []string{
-			"attribute strings, list elements, map keys and values are compared after Unicode NFC: every cty string is NFC-normalised on entry (go-cty docs/types.md), which is the documented data model of the language; block labels do not pass through cty and are compared byte for byte",
+			"attribute strings, list elements, map keys and values are compared after Unicode NFC: every cty string is NFC-normalised on entry (go-cty docs/types.md), which is the documented data model of the language; block labels do not pass through cty in the loader (they do in hclwrite), so a label is accepted either byte for byte or NFC-normalised",
 			"a nil and an empty list/map are the same configuration (an empty [] decodes to an empty non-nil slice, an absent optional attribute to nil)",
 			"\\uXXXX and \\UXXXXXXXX are not emitted: this fork's string scanner rejects them and the property statement does not list them; \\xHH denotes one raw byte, so a code point is written as one \\xHH per UTF-8 byte",
 			"strings are valid UTF-8 (arbitrary Unicode); raw CR/LF never appear inside quotes (the grammar forbids them)",
